@@ -75,8 +75,7 @@ theorem shared_unchanged (t : T) (f : Nat) (log : Log) (ht : ∀ j ∈ t.ids, j 
     values, code constants, emitted values -/
 theorem setpath_isolated (p : Path) (v n t : T) (f : Nat) (v' : T) (A' : List Nat) (f' : Nat) (log : Log)
     (h : upd [] f p v n = some (v', A', f', log)) (ht : ∀ j ∈ t.ids, j < f) :
-    log = [] ∨ (applyLog log t = t ∧ ∀ fuel, observe log fuel t = t) := by
-  right
+    applyLog log t = t ∧ ∀ fuel, observe log fuel t = t := by
   apply shared_unchanged t f log ht
   intro e he
   obtain ⟨h1, h2⟩ := write_confined_any p v n [] f v' A' f' log h
